@@ -594,6 +594,22 @@ func explainedByLost(comps, dirs []string, lost string) bool {
 	return true
 }
 
+// overloaded: a step of the trace failed with one of Gaea's wall-clock limits.
+func overloaded(trace []string) bool {
+	for _, l := range trace {
+		if !strings.Contains(l, "-> ERR") {
+			continue
+		}
+		low := strings.ToLower(l)
+		for _, k := range []string{"timeout", "timed out", "deadline", "getbackendconn failed", "i/o"} {
+			if strings.Contains(low, k) {
+				return true
+			}
+		}
+	}
+	return false
+}
+
 func uniq(xs []string) []string {
 	m := map[string]bool{}
 	var out []string
@@ -710,10 +726,19 @@ func main() {
 				res, trace := replay(cfg, hist)
 				if res.Violation != "" {
 					// replay 4 more times: must fail identically
+					retries := 0
 					for i := 0; i < 4; i++ {
-						r2, _ := replay(cfg, hist)
+						r2, t2 := replay(cfg, hist)
 						if r2.Violation != res.Violation {
-							ev.Fatalf("history %v: violation not reproducible: %q vs %q", hist, res.Violation, r2.Violation)
+							// Gaea's own wall-clock limits (2 s to get a pooled connection, handshake
+							// timeout) can fire on an overloaded machine and make a step fail that
+							// otherwise succeeds: such a run says nothing, repeat it (a few times)
+							if overloaded(t2) && retries < 6 {
+								retries++
+								i--
+								continue
+							}
+							ev.Fatalf("history %v: violation not reproducible: %q vs %q\n    %s", hist, res.Violation, r2.Violation, strings.Join(t2, "\n    "))
 						}
 					}
 					res.Violation += "\n    " + strings.Join(trace, "\n    ")
